@@ -79,12 +79,17 @@ def build(rng, *, payload: bytes, key: bytes, iv: bytes, extra_attrs: list[tuple
     return raw, meta
 
 
-def keystore_text(rng, *, key_id: bytes, data1: bytes, data2: bytes, style: int = 0, mode: str | None = "NONE", extra: dict | None = None) -> str:
+def keystore_text(rng, *, key_id: bytes, data1: bytes, data2: bytes, style: int = 0, mode: str | None = "NONE", extra: dict | None = None,
+                  superseded_first: bool = False) -> str:
     q = lambda b: quote(base64.b64encode(b).decode(), safe="")  # noqa: E731
     enc = f"keyId={q(key_id)}:data1={q(data1)}:data2={q(data2)}:version=1"
     lines = ['.encoding = "UTF-8"', 'includeKeyCache = "FALSE"']
     if mode is not None:
         lines.append(f'mode = "{mode}"')
+    if superseded_first and style != 1:
+        # an earlier assignment of the same name (a rotated key whose old line was left in place): the later one is in force
+        old = f"keyId={q(key_id)}:data1={q(bytes(rng.randrange(256) for _ in range(len(data1))))}:data2={q(bytes(rng.randrange(256) for _ in range(len(data2))))}:version=1"
+        lines.append(f'ConfigEncData = "{old}"')
     lines.append(f'ConfigEncData = "{enc}"')
     for k, v in (extra or {}).items():
         lines.append(f'{k} = "{v}"')
